@@ -381,3 +381,7 @@ package ast
 //@ invariant !isStmtKind(self.Init) && !isStmtKind(self.Cond) && !isStmtKind(self.Loop)
 //@ struct ForInStmt
 //@ invariant !isStmtKind(self.Iter)
+
+//@ func (*Node).String
+//@ props C01
+//@ pure
